@@ -298,6 +298,11 @@ def run(ctx, rep):
             r = cfgf.reachable(tgt, [m for l, m in conds[0].succ if l == "F"])
             txt = " ".join(cfgf.nodes[x].text(200) for x in r)
             good = good and ("execution_complete" in txt or "EXECUTION_COMPLETE" in txt)
+            # the test is made whatever operation is in flight on the order: a remainder of zero completes it
+            from sa.kinds import guard_pairs
+            stat = [t for t, pol in guard_pairs(cfgf, conds[0].id) if ".status" in t and "current_order" not in t and "market_book" not in t
+                    and "instruction_report" not in t and "simulated_response" not in t]
+            good = good and not stat
         rep.check(good, "R5", key(f, None, "complete exactly when the remainder is zero"), f, conds[0].exprs[0] if conds else None)
 
 
